@@ -5,7 +5,8 @@ FIX_COMMITS = ['c5b9684 (C05 DataReader EOD==0)', 'c3bb002 (C17 ESC prefix on 1x
                '443d88b (C07/C08 transaction survives STARTTLS)', '32a1f33 (C09 size limit segmentation-dependent / oversize content executed)',
                '23d724d + 0580462 (C03/C01 delivered-index history, re-queue before marks stored)', '866c7e1 (C01 dict shadowing)',
                '14c3a79 + f3319b7 (C12 flush)', '8c3f97c (C12 schedule list mutated during blocking spawn)', 'b06082a (C15 redis load)', '4831a3d (C15 cloud attempts)',
-               '927adda (C15/C03 DictStorage over shelve)', 'bd8a6c6 (C03 active until removed)']
+               '927adda (C15/C03 DictStorage over shelve)', 'bd8a6c6 (C03 active until removed)',
+               '6d62944 (C02 edges results[0])', '476db38 (C02 ProxyQueue per-recipient failures)']
 
 ENGINES = [
     {'name': 'runner', 'path': 'vf/runner.py', 'serves_properties': [],
@@ -17,6 +18,10 @@ ENGINES = [
      'kind_free_text': 'real slimta Queue + real storage backend + scripted relay; every storage/relay call parks on a harness gate, scheduler on a virtual clock; JSON action histories interpreted robustly, reference model, fair drain'},
     {'name': 'storage-machine', 'path': 'vf/props/c15.py', 'serves_properties': ['C15'],
      'kind_free_text': 'operation-sequence interpreter over the real backends (vf/backends.py: RESP fake redis, in-memory object store, shelve-like mapping) with a reference dict store'},
+    {'name': 'edge-fault-table', 'path': 'vf/props/c02.py', 'serves_properties': ['C02'],
+     'kind_free_text': 'edges over Queue+FaultStore / ProxyQueue+scripted relay with an event log and harness-gated slow writes'},
+    {'name': 'crash-point-snapshots', 'path': 'vf/props/c04.py', 'serves_properties': ['C04'],
+     'kind_free_text': 'recording proxies on slimta.diskstorage.{os,mkstemp,aio_write} that copy the directories before every file-system effect'},
     {'name': 'reactive-peer', 'path': 'vf/props/c10.py', 'serves_properties': ['C10'],
      'kind_free_text': 'in-memory downstream that parses what the client sends and only then makes the scripted replies readable; a read when nothing is owed raises'},
     {'name': 'scripted-socket', 'path': 'vf/transport.py', 'serves_properties': ['C05', 'C17'],
@@ -147,6 +152,26 @@ CHECKS['C15'] = {
             'recipients-minus-delivered/attempts, load lists exactly the live ids with latest timestamps, removed messages are gone, overlapped operations on different ids do not disturb each other',
     'design_ref': 'DESIGN.md section 2 C15',
     'note': 'fidelity of the fake redis server and object store is trusted; exception type of get-after-remove is gray',
+}
+CHECKS['C02'] = {
+    'engine': 'edge-fault-table',
+    'level': 'fault_enumeration',
+    'technique': 'fault enumeration + property-based testing: exhaustive (envelope count x failing write x fault kind x edge x policy) table and Hypothesis multi-fault cases; invariant over an event log',
+    'text': 'SmtpEdge sessions and WsgiEdge requests over a real Queue with policy chains and a fault-injecting store (QueueError with 4xx/5xx/no reply, other '
+            'exception, slow gated write) and over ProxyQueue with every relay result shape: a 2xx reply requires every envelope written ok (every recipient relayed) '
+            'before the reply; any failure requires 4xx/5xx; no success reply may be visible while a write gate is still closed',
+    'design_ref': 'DESIGN.md section 2 C02',
+    'note': 'custody = QueueStorage.write returned; slow writes are harness gates; HTTP leg driven through WsgiEdge.__call__ with a synthetic environ',
+}
+CHECKS['C04'] = {
+    'engine': 'crash-point-snapshots',
+    'level': 'fault_enumeration',
+    'technique': 'crash-point enumeration over Hypothesis operation histories: snapshot before every file-system effect, recovery by fresh DiskStorage + fresh Queue vs reference model',
+    'text': 'for generated histories of DiskStorage operations every crash point (before mkstemp, each aio chunk write, rename, unlink, and after the last) is '
+            'materialised as a directory snapshot; a fresh DiskStorage must load() without raising and return every acknowledged, not-yet-removed message with '
+            'sender, content, outstanding recipients and attempts of the pre- or post-state of the operation in flight, and a fresh Queue must re-attempt it',
+    'design_ref': 'DESIGN.md section 2 C04',
+    'note': 'process death between atomic file-system effects (no power-loss / fsync model); sequential operations',
 }
 
 NOT_APPLICABLE = {}
